@@ -319,7 +319,14 @@ func c11(c *Ctx) {
 	}
 	for _, st := range rootStores {
 		fn := st.Parent()
-		c.Check(fn.Name() == "New" && RelPkg(PkgOf(fn)) == fsRel, "root-immutable", shortFn(fn)+" stores Htfs.root", p.InstrPos(st), "root set by the constructor only", "the filesystem root is written outside the constructor")
+		isCtor := fn.Name() == "New" && RelPkg(PkgOf(fn)) == fsRel
+		copies := false
+		if ld, ok := st.Val.(*ssa.UnOp); ok && ld.Op == token.MUL {
+			if fa, ok := ld.X.(*ssa.FieldAddr); ok && NamedOf(fa.X.Type()) == s.htfs && fa.Field == s.rootIdx {
+				copies = true // a clone keeps the root of the filesystem it was made from
+			}
+		}
+		c.Check(isCtor || copies, "root-immutable", shortFn(fn)+" stores Htfs.root", p.InstrPos(st), "root set by the constructor (or copied unchanged into a clone)", "the filesystem root is written outside the constructor with a value that is not another filesystem's root")
 	}
 	// RealPath summary
 	for i, r := range Returns(s.rp) {
